@@ -66,8 +66,8 @@ def main():
     plan = []
     nseeds = 1 if tier == "quick" else 3
     for ci, c in enumerate(cases):
-        if not c.lens or c.error:
-            continue
+        if not c.lens:
+            continue        # (a case without a usable model is still driven: prefix and perturbation runs need no model)
         nin = len(c.inputs)
         n = c.nmax
         for sd in range(nseeds):
